@@ -8,6 +8,8 @@ from vf import common, msgs
 from vf.ref import trxd
 
 SHARDS = {"quick": 1, "thorough": 16}
+REUSE = [0]
+REUSED = {}
 
 
 def roundtrip(ctx, m, legacy, sub, as_bytes = False):
@@ -25,7 +27,14 @@ def roundtrip(ctx, m, legacy, sub, as_bytes = False):
 	try:
 		data = obj.gen_msg(legacy)
 		data = bytes(data) if as_bytes else bytearray(data)
-		new = dm.TxMsg() if m["dir"] == "tx" else dm.RxMsg()
+		if REUSE[0] % 3 == 0:
+			# a receiver may keep one message object and parse datagram after datagram into it:
+			# nothing of the previous datagram may survive in a field the new one defines
+			new = REUSED.setdefault(m["dir"], dm.TxMsg() if m["dir"] == "tx" else dm.RxMsg())
+			ctx.count("parsed_into_a_reused_object")
+		else:
+			new = dm.TxMsg() if m["dir"] == "tx" else dm.RxMsg()
+		REUSE[0] += 1
 		new.parse_msg(data)
 	except Exception as e:
 		ctx.violation(sub, witness, what = "valid message fails to round-trip: %s: %s"
